@@ -59,7 +59,7 @@ fn c08_with_fields() {
     kani::cover!(d == 31 && dt.with_month(x).is_none() && x >= 1 && x <= 12);
 }
 
-// @ob tier=quick timeout=900
+// @ob tier=thorough timeout=5400 mem=12
 // @desc NaiveWeek: checked_first_day is the given weekday at most six days before the date, checked_last_day six days after it; None only when that day is outside the supported range; checked_days spans exactly those (day distances computed on (year, ordinal) by the reference calendar)
 // @bounds all dates x all 7 start weekdays
 // @funcs NaiveDate::week, NaiveWeek::{checked_first_day, checked_last_day, checked_days}
